@@ -23,18 +23,18 @@ use vcommon::{fingerprint, CheckDef, ClassPlan, Ctx, Outcome, PassInfo, Tape, Ti
 pub static DEF: CheckDef = CheckDef {
     id: "C15",
     level: "fault_enumeration",
-    rule: "Cases: 12 fixed scenarios in which one client (the victim) has operations of every handle type in flight or deliberately left pending (server loops, calls held by the callee, event/item/bus-event/discoverer streams, send_ready without credit, establish, lifetime end, wait_for_object, request bursts), run with a peer client against a real broker under generated schedules. Faults: for each (scenario, schedule) a fault-free run measures T completed transport operations (receive/send/flush) of the victim after the handshake; EVERY k in 0..T is executed with an injected error and with a disconnect (class fault-sweep, exhaustive over k); classes fault-random and clean add generated schedules and the four clean causes (Handle::shutdown, last handle dropped, BrokerHandle::shutdown, BrokerHandle::shutdown_connection) at generated program points (simulator step index). Non-trivial: >=3 application operations of the victim pending when the client stops. Distinct = scenario + cause + point + schedule.",
+    rule: "Cases: 12 fixed scenarios in which one client (the victim) has operations of every handle type in flight or deliberately left pending (server loops, calls held by the callee, event/item/bus-event/discoverer streams, send_ready without credit, establish, lifetime end, wait_for_object, request bursts), run with a peer client against a real broker under generated schedules. Faults: for each (scenario, schedule) a fault-free run measures T completed transport operations (receive/send/flush) of the victim after the handshake; EVERY k in 0..T is executed with an injected error and with a disconnect (class fault-sweep, exhaustive over k); classes fault-random and clean add generated schedules and the four clean causes (Handle::shutdown, last handle dropped, BrokerHandle::shutdown, BrokerHandle::shutdown_connection) and the combination Handle::shutdown + BrokerHandle::shutdown at generated program points (simulator step index). Non-trivial: >=3 application operations of the victim pending when the client stops. Distinct = scenario + cause + point + schedule.",
     assumptions: &[
         "a transport operation = a receive that yielded, a send_start, a flush that completed, on the victim's side of the repository's channel transport; the handshake is not part of the fault domain",
         "'error' fails one operation and leaves the peer unaware until the client drops the transport; 'disconnect' closes the transport under the client at that operation",
         "operations started after the stop are probed on every value the application still holds; for values whose semantics allow a local Ok (send_ready with credit left, close of a closed end, replies that had arrived) only completion is required",
-        "stashed pending replies are dropped before the last handle in the last-handle-dropped cause (known finding F5), except in class clean-late-abort",
+        "class clean-late-abort drops the victim's pending replies right after the shutdown request (shape of the repaired finding F5); the cause shutdown-request+broker-shutdown applies both at the same program point",
     ],
     plan,
     case,
     render,
     crashy: false,
-    floors: &[(">=3-pending-at-stop", 0.30), ("fault:receive", 0.08), ("fault:send", 0.06), ("fault:flush", 0.06), ("probe:values>=5", 0.12), ("cause:shutdown-request", 0.04), ("cause:last-handle-dropped", 0.04), ("cause:broker-shutdown", 0.04), ("cause:broker-shutdown-connection", 0.04)],
+    floors: &[(">=3-pending-at-stop", 0.30), ("fault:receive", 0.08), ("fault:send", 0.06), ("fault:flush", 0.06), ("probe:values>=5", 0.12), ("cause:shutdown-request", 0.04), ("cause:last-handle-dropped", 0.04), ("cause:broker-shutdown", 0.04), ("cause:broker-shutdown-connection", 0.04), ("cause:shutdown-request+broker-shutdown", 0.03)],
     extra: Some(extra),
     extra_coverage: Some(extra_coverage),
 };
@@ -218,6 +218,15 @@ pub enum Cause {
     LastHandleDropped,
     BrokerShutdown,
     BrokerShutdownConnection,
+    /// the victim asks for its shutdown at the moment the broker is shut down
+    ShutdownRequestAndBrokerShutdown,
+}
+
+impl Cause {
+    /// the broker goes away as a whole (every client stops)
+    fn broker_down(self) -> bool {
+        matches!(self, Cause::BrokerShutdown | Cause::ShutdownRequestAndBrokerShutdown)
+    }
 }
 
 #[derive(Debug, Clone)]
@@ -232,6 +241,9 @@ pub struct Case15 {
     pub policy: u8,
     pub det_seed: u64,
     pub late_abort: bool,
+    /// class clean-late-abort: the application drops its pending replies right after asking
+    /// for the shutdown
+    pub drop_replies_after_request: bool,
     /// clean cause applied after the program has run to quiescence
     pub at_quiescence: bool,
 }
@@ -256,19 +268,22 @@ fn decode(class: &str, tape: &[u8]) -> Case15 {
         "fault-random" => (if sel % 2 == 0 { Cause::Fault(FaultKind::Error) } else { Cause::Fault(FaultKind::Eof) }, true),
         "clean-late-abort" => (Cause::ShutdownRequest, true),
         _ => (
-            match sel % 4 {
+            match sel % 5 {
                 0 => Cause::ShutdownRequest,
                 1 => Cause::LastHandleDropped,
                 2 => Cause::BrokerShutdown,
-                _ => Cause::BrokerShutdownConnection,
+                3 => Cause::BrokerShutdownConnection,
+                _ if std::env::var("VAPI_EXCLUDE_F9").map(|v| v == "1").unwrap_or(false) => Cause::BrokerShutdown,
+                _ => Cause::ShutdownRequestAndBrokerShutdown,
             },
             true,
         ),
     };
-    let late_abort = class == "clean-late-abort" && !crate::c06::exclude_f5();
+    let late_abort = !crate::c06::exclude_f5();
+    let drop_replies_after_request = class == "clean-late-abort" && late_abort;
     // only these scenarios leave pending replies with the victim's application
     let scenario = if class == "clean-late-abort" { [1, 11][scenario % 2] } else { scenario };
-    Case15 { scenario, cause, point, relative, sched_seed, policy, det_seed, late_abort, at_quiescence: false }
+    Case15 { scenario, cause, point, relative, sched_seed, policy, det_seed, late_abort, drop_replies_after_request, at_quiescence: false }
 }
 
 pub fn exclude_f7() -> bool {
@@ -353,7 +368,7 @@ fn run_case(c: &Case15) -> Outcome {
             return Outcome::fail("harness:empty-range", "fault-free run has no transport operation");
         }
         c.point = (c.point as u64 % range) as u32;
-        if c.cause == Cause::BrokerShutdown && exclude_f7() {
+        if c.cause.broker_down() && exclude_f7() {
             c.point = m.steps as u32;
         }
         c.at_quiescence = !matches!(c.cause, Cause::Fault(_)) && c.point as u64 >= m.steps;
@@ -371,7 +386,7 @@ enum Done {
 }
 
 pub fn measure(scenario: usize, sched_seed: u64, policy: u8, det_seed: u64) -> Option<Measure> {
-    let c = Case15 { scenario, cause: Cause::None, point: 0, relative: false, sched_seed, policy, det_seed, late_abort: false, at_quiescence: false };
+    let c = Case15 { scenario, cause: Cause::None, point: 0, relative: false, sched_seed, policy, det_seed, late_abort: false, drop_replies_after_request: false, at_quiescence: false };
     let r = vcommon::with_det_seed(det_seed, 1 << 21, move || match execute(&c, Cause::None, 0) {
         Ok(Done::Measured(m)) => Some(m),
         _ => None,
@@ -418,7 +433,7 @@ fn execute(c: &Case15, cause: Cause, point: u32) -> Result<Done, Outcome> {
                     if let Some(h) = victim.h() {
                         h.shutdown();
                     }
-                    if c.late_abort && victim.drop_replies() > 0 {
+                    if c.drop_replies_after_request && victim.drop_replies() > 0 {
                         // pending replies dropped while the client shuts down (F5 trigger)
                         rig.world.count("late-abort");
                     }
@@ -434,7 +449,12 @@ fn execute(c: &Case15, cause: Cause, point: u32) -> Result<Done, Outcome> {
                     }
                     victim.drop_all();
                 }
-                Cause::BrokerShutdown => {
+                Cause::BrokerShutdown | Cause::ShutdownRequestAndBrokerShutdown => {
+                    if cause == Cause::ShutdownRequestAndBrokerShutdown {
+                        if let Some(h) = victim.h() {
+                            h.shutdown();
+                        }
+                    }
                     for cc in rig.world.clients.iter() {
                         cc.shutdown_requested.set(true);
                     }
@@ -508,10 +528,10 @@ fn execute(c: &Case15, cause: Cause, point: u32) -> Result<Done, Outcome> {
     for i in 1..rig.net.clients.len() {
         let r = rig.net.clients[i].client_result.borrow().clone();
         match (&cause, r) {
-            (Cause::BrokerShutdown, Some(Ok(()))) => {}
-            (Cause::BrokerShutdown, None) => return Err(fail("run-result:still-running", rig.detail(&format!("Client::run() of peer c{} has not returned after the broker was shut down", i)))),
-            (Cause::BrokerShutdown, Some(Err(e))) => {
-                return Err(fail(format!("run-result:broker-shutdown{}:{}", when, variant(&format!("{:?}", e))), rig.detail(&format!("after BrokerHandle::shutdown() Client::run() of peer c{} returned {:?}", i, e))));
+            (c, Some(Ok(()))) if c.broker_down() => {}
+            (c, None) if c.broker_down() => return Err(fail("run-result:still-running", rig.detail(&format!("Client::run() of peer c{} has not returned after the broker was shut down", i)))),
+            (c, Some(Err(e))) if c.broker_down() => {
+                return Err(fail(format!("run-result:{}{}:{}", cause_name(*c), when, variant(&format!("{:?}", e))), rig.detail(&format!("after BrokerHandle::shutdown() Client::run() of peer c{} returned {:?}", i, e))));
             }
             (_, None) => {}
             (_, Some(r)) => return Err(fail("peer-run-result:peer-stopped", rig.detail(&format!("peer c{} stopped although only the victim was stopped: {:?}", i, r)))),
@@ -533,7 +553,7 @@ fn execute(c: &Case15, cause: Cause, point: u32) -> Result<Done, Outcome> {
         w.gate.open_next();
     }
     for t in w.tasks.borrow().iter() {
-        if t.client != 0 && cause != Cause::BrokerShutdown {
+        if t.client != 0 && !cause.broker_down() {
             continue;
         }
         if !t.done.get() {
@@ -589,7 +609,7 @@ fn execute(c: &Case15, cause: Cause, point: u32) -> Result<Done, Outcome> {
     }
 
     // 5. another client can re-create the dead client's objects
-    if cause != Cause::BrokerShutdown {
+    if !cause.broker_down() {
         let idx = rig.net.add_client(Proto::V20, TKind::Unbounded);
         rig.settle("fresh-client")?;
         let Some(h) = rig.net.clients[idx].handle.borrow_mut().take() else {
@@ -630,6 +650,7 @@ fn execute(c: &Case15, cause: Cause, point: u32) -> Result<Done, Outcome> {
         Cause::ShutdownRequest => "cause:shutdown-request",
         Cause::LastHandleDropped => "cause:last-handle-dropped",
         Cause::BrokerShutdown => "cause:broker-shutdown",
+        Cause::ShutdownRequestAndBrokerShutdown => "cause:shutdown-request+broker-shutdown",
         Cause::BrokerShutdownConnection => "cause:broker-shutdown-connection",
         Cause::None => "cause:none",
     });
@@ -651,6 +672,7 @@ fn cause_name(c: Cause) -> &'static str {
         Cause::ShutdownRequest => "shutdown-request",
         Cause::LastHandleDropped => "last-handle-dropped",
         Cause::BrokerShutdown => "broker-shutdown",
+        Cause::ShutdownRequestAndBrokerShutdown => "shutdown-request+broker-shutdown",
         Cause::BrokerShutdownConnection => "broker-shutdown-connection",
     }
 }
